@@ -124,3 +124,23 @@ pub fn hex_trunc(b: &[u8], max: usize) -> String {
         format!("{}..(+{} bytes)", hex(&b[..max]), b.len() - max)
     }
 }
+
+/// TCP connect that does not mistake a shortage of local ports on the harness side (EADDRNOTAVAIL /
+/// EADDRINUSE while tens of thousands of earlier loopback connections sit in TIME_WAIT) for a refusal by
+/// the peer: those are waited out (up to 60 s); every other error is the caller's to judge.
+pub fn tcp_connect(addr: &std::net::SocketAddr, timeout: std::time::Duration) -> std::io::Result<std::net::TcpStream> {
+    let t0 = std::time::Instant::now();
+    loop {
+        match std::net::TcpStream::connect_timeout(addr, timeout) {
+            Err(e) if (e.kind() == std::io::ErrorKind::AddrNotAvailable || e.kind() == std::io::ErrorKind::AddrInUse) && t0.elapsed() < std::time::Duration::from_secs(60) => {
+                std::thread::sleep(std::time::Duration::from_millis(500));
+            }
+            r => return r,
+        }
+    }
+}
+
+/// set by the stubs that replace the parts driving roughenough::responder::Responder directly when the
+/// harness had to be built without them (feature `no_responder_api`: the Responder API of the tree
+/// under test differs from the one the harness was written against)
+pub static RESPONDER_API_SKIPPED: std::sync::atomic::AtomicBool = std::sync::atomic::AtomicBool::new(false);
